@@ -81,3 +81,29 @@ func CalcM3u8Duration(content []byte) (durationSec float64, err error) {
 	}
 	return
 }
+
+// parseM3u8NextMediaSeq
+//
+// @param content 传入直播m3u8文件内容
+//
+// @return nextSeq 该m3u8之后的下一个ts的序号，也即 EXT-X-MEDIA-SEQUENCE 加上列表中ts的个数
+func parseM3u8NextMediaSeq(content []byte) (nextSeq int, err error) {
+	seq := -1
+	count := 0
+	lines := bytes.Split(content, []byte{'\n'})
+	for _, line := range lines {
+		line = bytes.TrimSpace(line)
+		if bytes.HasPrefix(line, []byte("#EXT-X-MEDIA-SEQUENCE:")) {
+			seq, err = strconv.Atoi(string(bytes.TrimPrefix(line, []byte("#EXT-X-MEDIA-SEQUENCE:"))))
+			if err != nil {
+				return 0, err
+			}
+		} else if bytes.HasPrefix(line, []byte("#EXTINF:")) {
+			count++
+		}
+	}
+	if seq < 0 {
+		return 0, nazaerrors.Wrap(base.ErrHls)
+	}
+	return seq + count, nil
+}
